@@ -35,6 +35,16 @@ meta = {'property': prop, 'checked_with': pid, 'name': name, 'demo_exit_on_clean
         'our_check': './check %s --tier %s' % (pid, tier), 'our_check_exit_with_patch': int(check), 'caught': int(check) == 1,
         'repository_suite_with_patch': suite, 'needs_to_manifest': notes[:1500],
         'ran': 'tools/seed_eval.sh (scratch copy of /repo at HEAD + patch; demo on clean and patched copy; our check via VERIF_REPO; full pytest suite compared with BASELINE stable_pass)'}
+hp = os.path.join(os.path.dirname(out), 'HISTORY.json')
+if os.path.exists(hp):
+    meta.update(json.load(open(hp)).get(name, {}))
+if suite == 'skipped' and os.path.exists(os.path.join(out, 'meta.json')):
+    try:
+        old = json.load(open(os.path.join(out, 'meta.json')))
+        if old.get('repository_suite_with_patch', 'skipped') != 'skipped':
+            meta['repository_suite_with_patch'] = old['repository_suite_with_patch'] + ' (from an earlier evaluation)'
+    except Exception:
+        pass
 json.dump(meta, open(os.path.join(out, 'meta.json'), 'w'), indent=1)
 print(name, 'demo clean=%s patched=%s check_rc=%s suite=[%s]' % (clean, patched, check, suite))
 PY
